@@ -156,3 +156,42 @@ func verifHarness_C08_sequence() {
 	verifAssert(string(rec.body) == string(want), "the body is the concatenation of all writes in order")
 	verifCover("C08 sequence")
 }
+
+
+// The commit rule also holds on the panic path: with an OnPanic hook the
+// header carries the last positive status set before the first write - the
+// hook's status when the panic happened before any write.
+func verifHarness_C08_panicCommit() {
+	r := New()
+	pre := verifInt("preStatus")
+	hookCode := verifInt("hookStatus")
+	verifAssume(verifAnd(hookCode >= 100, hookCode <= 599))
+	wroteBefore := verifChoice("wroteBefore", 2) == 1
+	hookWrites := verifChoice("hookWrites", 2) == 1
+	r.OnPanic = func(c *Context) {
+		c.SetStatus(hookCode)
+		if hookWrites {
+			c.WriteString("E")
+		}
+	}
+	r.GET("/x", func(c *Context) {
+		c.SetStatus(pre)
+		if wroteBefore {
+			c.WriteString("a")
+		}
+		panic("boom")
+	})
+	rec := verifNewWriter()
+	r.ServeHTTP(rec, verifRequest("GET", "/x"))
+	want := hookCode
+	if wroteBefore {
+		want = 200
+		if pre > 0 {
+			want = pre
+		}
+	}
+	verifAssert(rec.whCalls == 1, "exactly one WriteHeader also when a handler panics")
+	verifAssert(rec.whStatus == want, "the header carries the last positive status set before the first write (the hook's status if nothing was written before the panic)")
+	verifAssert(rec.preCommit == 0, "no body byte before the header")
+	verifCover("C08 panic commit")
+}
